@@ -11,14 +11,14 @@ import vlib, fam_archive as fa
 from vlib import Inconclusive, log
 
 PID = "C16"
-CHECKS = ["C16_Confined", "C16_CleanNames", "C16_SizeReject", "C16_SizeRead"]
+CHECKS = ["C16_Confined", "C16_CleanNames", "C16_SizeReject", "C16_SizeRead", "C16_SizeHeader"]
 
 
 def describe(case, o=None):
     ents = []
     for e in case["stream"]:
         nm = "".join((e["seps"][i - 1] if i else "") + (c if c else "<empty>") for i, c in enumerate(e["comps"]))
-        ents.append("%s:%s%s" % (e["type"], nm, (" size=%d" % e["size"]) if case["fam"] == "size" else ""))
+        ents.append("%s:%s%s" % (e["type"], nm, (" size=%d" % e["size"]) if case["fam"] in ("size", "sizeread") else ""))
     s = "%s %s layout=%s%s%s [%s]" % (case["fam"], case["op"], case["layout"],
                                       (" chartname=" + "/".join(case["cname"])) if case["op"] == "expand" else "",
                                       (" api=%s lock=%s" % (case["api"], case["lock"])) if case["op"] == "lock" else "",
@@ -102,7 +102,7 @@ def run(pid, tier, seed, replay=None):
             if o["rep"] == 0:
                 fams[o["fam"]] += 1
             outcome[(o["fam"], "error" if o["err"] else "ok")] += 1
-            over = o["fam"] == "size" and o["bound"] > 0
+            over = o["fam"] in ("size", "sizeread") and o["bound"] > 0
             if over:
                 oversize += 1
                 max_over = max(max_over, o["consumed"])
@@ -132,7 +132,7 @@ def run(pid, tier, seed, replay=None):
     coverage = dict(
         states=mc["distinct"], transitions=mc["generated"], traces_validated_against_impl=conform, samples=samples[:14],
         exhaustive=True, exhaustive_config=cfg, exhaustive_depth=mc["depth"], exhaustive_seconds=mc["seconds"],
-        model_invariants=["InvConfined", "InvConfinedAlways", "InvNames", "InvSizeReject", "InvSizeBound", "InvRun"],
+        model_invariants=["InvConfined", "InvConfinedAlways", "InvNames", "InvSizeReject", "InvSizeBound", "InvNoOversizeBody", "InvRun"],
         model_invariant_violated=mc["violated"] or "",
         negative_selftest="plain-join model violates %s (%d states)" % (neg["r"]["violated"], neg["r"]["distinct"]),
         abstract_cases=len(case_lines), cases_per_family=dict(fams), concretisations_per_case=reps,
